@@ -46,6 +46,48 @@ fn block_on<F: std::future::Future>(f: F) -> F::Output {
     RT.with(|rt| rt.block_on(f))
 }
 
+// A source that hands out at most `step` bytes per read (a socket / pipe like reader)
+struct Trickle {
+    data: Vec<u8>,
+    pos: usize,
+    step: usize,
+}
+
+impl std::io::Read for Trickle {
+    fn read(&mut self, buf: &mut [u8]) -> std::io::Result<usize> {
+        let n = self.step.min(buf.len()).min(self.data.len() - self.pos);
+        buf[..n].copy_from_slice(&self.data[self.pos..self.pos + n]);
+        self.pos += n;
+        Ok(n)
+    }
+}
+
+#[cfg(feature = "fl-asyncstd")]
+impl futures::io::AsyncRead for Trickle {
+    fn poll_read(
+        mut self: std::pin::Pin<&mut Self>,
+        _cx: &mut std::task::Context<'_>,
+        buf: &mut [u8],
+    ) -> std::task::Poll<std::io::Result<usize>> {
+        std::task::Poll::Ready(std::io::Read::read(&mut *self, buf))
+    }
+}
+
+#[cfg(feature = "fl-tokio")]
+impl tokio::io::AsyncRead for Trickle {
+    fn poll_read(
+        mut self: std::pin::Pin<&mut Self>,
+        _cx: &mut std::task::Context<'_>,
+        buf: &mut tokio::io::ReadBuf<'_>,
+    ) -> std::task::Poll<std::io::Result<()>> {
+        let n = self.step.min(buf.remaining()).min(self.data.len() - self.pos);
+        let (a, b) = (self.pos, self.pos + n);
+        buf.put_slice(&self.data[a..b]);
+        self.pos += n;
+        std::task::Poll::Ready(Ok(()))
+    }
+}
+
 enum Handle {
     SyncWriter(cacache::SyncWriter),
     SyncReader(cacache::SyncReader),
@@ -450,6 +492,33 @@ impl Drv {
                     _ => Err(json!({"variant":"Driver","text":"no such writer"})),
                 }
             }
+            // Write::write_vectored / AsyncWriteExt::write_vectored with several buffers
+            "w_write_vectored" => {
+                let h = req["h"].as_u64().unwrap();
+                let parts: Vec<Vec<u8>> = req["datas"].as_array().unwrap().iter().map(get_data).collect();
+                let slices: Vec<std::io::IoSlice> = parts.iter().map(|p| std::io::IoSlice::new(p)).collect();
+                match self.handles.get_mut(&h) {
+                    Some(Handle::SyncWriter(w)) => w.write_vectored(&slices).map(|n| json!(n)).map_err(|e| raw_io(&e)),
+                    #[cfg(not(feature = "fl-sync"))]
+                    Some(Handle::Writer(w)) => block_on(w.write_vectored(&slices)).map(|n| json!(n)).map_err(|e| raw_io(&e)),
+                    _ => Err(json!({"variant":"Driver","text":"no such writer"})),
+                }
+            }
+            // io::copy (std / futures / tokio) from a source that delivers `step` bytes per read
+            "w_copy_from" => {
+                let h = req["h"].as_u64().unwrap();
+                let data = get_data(&req["data"]);
+                let step = req["step"].as_u64().unwrap_or(1024) as usize;
+                let mut src = Trickle { data, pos: 0, step: step.max(1) };
+                match self.handles.get_mut(&h) {
+                    Some(Handle::SyncWriter(w)) => std::io::copy(&mut src, w).map(|n| json!(n)).map_err(|e| raw_io(&e)),
+                    #[cfg(feature = "fl-asyncstd")]
+                    Some(Handle::Writer(w)) => block_on(futures::io::copy(&mut src, w)).map(|n| json!(n)).map_err(|e| raw_io(&e)),
+                    #[cfg(feature = "fl-tokio")]
+                    Some(Handle::Writer(w)) => block_on(tokio::io::copy(&mut src, w)).map(|n| json!(n)).map_err(|e| raw_io(&e)),
+                    _ => Err(json!({"variant":"Driver","text":"no such writer"})),
+                }
+            }
             "w_flush" => {
                 let h = req["h"].as_u64().unwrap();
                 match self.handles.get_mut(&h) {
@@ -612,6 +681,45 @@ impl Drv {
                     }
                     Err(e) => Err(raw_io(&e)),
                 }
+            }
+            // io::copy from the reader into a vector (std::io::copy / futures::io::copy / tokio::io::copy)
+            "r_copy" => {
+                let h = req["h"].as_u64().unwrap();
+                let mut acc: Vec<u8> = Vec::new();
+                let r = match self.handles.get_mut(&h) {
+                    Some(Handle::SyncReader(x)) => std::io::copy(x, &mut acc),
+                    Some(Handle::SyncLinker(x)) => std::io::copy(x, &mut acc),
+                    #[cfg(feature = "fl-asyncstd")]
+                    Some(Handle::Reader(x)) => block_on(futures::io::copy(x, &mut futures::io::Cursor::new(&mut acc))),
+                    #[cfg(feature = "fl-asyncstd")]
+                    Some(Handle::Linker(x)) => block_on(futures::io::copy(x, &mut futures::io::Cursor::new(&mut acc))),
+                    #[cfg(feature = "fl-tokio")]
+                    Some(Handle::Reader(x)) => block_on(tokio::io::copy(x, &mut acc)),
+                    #[cfg(feature = "fl-tokio")]
+                    Some(Handle::Linker(x)) => block_on(tokio::io::copy(x, &mut acc)),
+                    _ => return Err(json!({"variant":"Driver","text":"no such reader"})),
+                };
+                match r {
+                    Ok(n) => {
+                        let mut v = bytes_val(&acc);
+                        v["n"] = json!(n);
+                        Ok(v)
+                    }
+                    Err(e) => Err(raw_io(&e)),
+                }
+            }
+            // read_exact(n): fills the buffer or fails with UnexpectedEof
+            "r_read_exact" => {
+                let h = req["h"].as_u64().unwrap();
+                let n = req["n"].as_u64().unwrap() as usize;
+                let mut buf = vec![0u8; n];
+                let r = match self.handles.get_mut(&h) {
+                    Some(Handle::SyncReader(x)) => x.read_exact(&mut buf).map(|_| n),
+                    #[cfg(not(feature = "fl-sync"))]
+                    Some(Handle::Reader(x)) => block_on(x.read_exact(&mut buf)).map(|_| n),
+                    _ => return Err(json!({"variant":"Driver","text":"no such reader"})),
+                };
+                r.map(|k| bytes_val(&buf[..k])).map_err(|e| raw_io(&e))
             }
             "r_check" => {
                 let h = req["h"].as_u64().unwrap();
